@@ -9,6 +9,8 @@ import sys
 import traceback
 
 CHECKS = {
+    "C15": ("harness.checks.authfam", "C15"),
+    "C14": ("harness.checks.authfam", "C14"),
     "C07": ("harness.checks.kvfam", "C07"),
     "C10": ("harness.checks.kvfam", "C10"),
     "C03": [("harness.checks.storefam", "C03"), ("harness.checks.relayfam", "C03")],
